@@ -613,14 +613,8 @@ def run(ctx):
     t0 = time.time()
     phases = {}
 
-    # 1. the machine's own properties
+    # 1. the machine's own properties are model-checked side by side with the generation below
     states = transitions = 0
-    for m in mc:
-        res = tlc.model_check('JsonDoc', cfg(**m), ctx.scratch, workers=workers, coverage=False)
-        states += res.distinct
-        transitions += res.generated
-
-    phases['model_checking'] = round(time.time() - t0, 1)
     env = Env(ctx)
     stats_all = {}
     behaviours_done = 0
@@ -631,6 +625,9 @@ def run(ctx):
         # 2. generated behaviours (TLC runs side by side, one worker each)
         def generate(job):
             how, kind, c, num, depth = job
+            if how == 'mc':
+                res = tlc.model_check('JsonDoc', cfg(**c), ctx.scratch, workers=1 if ctx.tier == 'quick' else 2, tag='mc%d' % num)
+                return kind, how, [], res.distinct, res.generated
             if how == 'simulate':
                 behaviours, res = tlc.simulate('JsonDoc', cfg(**c), ctx.scratch, num=num, depth=depth, seed=ctx.seed + 1,
                                                tag='sim-' + kind)
@@ -640,15 +637,17 @@ def run(ctx):
             if covered != len(set(edges)):
                 raise MachineryError('path cover misses edges: %d of %d' % (covered, len(set(edges))))
             return kind, how, [[plain_state(s) for s in p] for p in paths], res.distinct, res.generated
-        todo = [('simulate', kind, c, num, depth) for kind, c, num, depth in sim] + \
+        todo = [('mc', 'json', m, n, 0) for n, m in enumerate(mc)] + \
+            [('simulate', kind, c, num, depth) for kind, c, num, depth in sim] + \
             [('graph', kind, c, n, 0) for n, (kind, c) in enumerate(graph)]
         with ThreadPoolExecutor(max_workers=workers) as pool:
             jobs = []
             for kind, how, behaviours, d, g in pool.map(generate, todo):
-                jobs.append((kind, how, behaviours))
+                if how != 'mc':
+                    jobs.append((kind, how, behaviours))
                 states += d
                 transitions += g
-        phases['generation'] = round(time.time() - t0 - phases['model_checking'], 1)
+        phases['tlc'] = round(time.time() - t0, 1)
         # 3. replay
         for kind, how, behaviours in jobs:
             rp = Replayer(ctx, env, kind)
